@@ -10,4 +10,6 @@ INVARIANT EmitBitmap
 INVARIANT EmitSvcBuilder
 INVARIANT EmitTxtBuilder
 INVARIANT EmitAlpnBuilder
+INVARIANT EmitCtor
+INVARIANT EmitCtorLong
 CHECK_DEADLOCK FALSE
